@@ -111,6 +111,13 @@ func rethrowPrograms() []*progCase {
 		catch(catch(th(f(v(0))), v(1), gc(",", gc("member", v(3), glist([]*G{gi(1), gi(2)}, nil)), gc(",", gc("=", v(1), f(v(3))), th(v(1))))), f(v(2)), ga("true")),
 		// three levels
 		catch(catch(catch(th(gc("h", v(0), v(5))), v(1), gc(",", gc("=", v(1), gc("h", gi(1), gv(-1))), th(v(1)))), v(3), gc(",", gc("=", v(3), gc("h", gv(-1), gi(2))), th(v(3)))), gc("h", v(2), v(4)), ga("true")),
+		// the goal of catch/3 itself is not callable: that error is raised inside this catch/3
+		catch(v(0), gc("error", v(1), gv(-1)), gc("=", v(2), ga("caught"))),
+		catch(gi(1), gc("error", v(1), gv(-1)), gc("=", v(2), ga("caught"))),
+		gc(",", gc("=", v(0), gi(3)), catch(v(0), gc("error", gc("type_error", v(1), v(3)), gv(-1)), gc("=", v(2), ga("caught")))),
+		catch(catch(v(0), ga("ball"), gc("=", v(2), ga("inner"))), gc("error", v(1), gv(-1)), gc("=", v(2), ga("outer"))),
+		catch(catch(gc("foo", ga("a")), gc("error", gc("existence_error", v(1), v(3)), gv(-1)), gc("=", v(2), ga("inner"))), gv(-1), gc("=", v(2), ga("outer"))),
+		catch(gc("call", gi(1)), gc("error", v(1), gv(-1)), gc("=", v(2), ga("caught"))),
 		// the formal of a built-in's error, thrown again in a new error term
 		catch(catch(gc("is", v(0), gc("+", ga("foo"), gi(1))), gc("error", v(1), gv(-1)), th(gc("error", v(1), ga("mine")))), gc("error", v(2), v(4)), ga("true")),
 	}
